@@ -628,7 +628,7 @@ Print Assumptions countdown_constant_depth.
 Theorem countdown_main (N:nat) :
   exists fuel h' w' d, spec_main fuel (countdown (Z.of_nat N)) [] = Done h' w' (inl (VStr [48%N])) d /\ (d <= 5)%nat.
 Proof.
-  set (w := {| w_in := []; w_out := [] |}).
+  set (w := (world_start [] [])).
   destruct (countdown_constant_depth N w) as (fuel & h' & d & Hb & Hd).
   exists (S (S fuel)), h', w, (Nat.max (0 + Nat.max (1 + d) 0) 0). split; [|lia].
   unfold spec_main. change {| funs := []; args := [] |} with e0.
